@@ -118,13 +118,15 @@ def run(ctx):
         p = byprog[c["pid"]]
         spec = trees[c["pid"]]
         canon = [x for x in c["out"]]
-        dk = sorted(set(x.split(":")[0] for x in c["out"] if x.split(":")[0] in ("sp", "cmt", "eolc1", "eolc2", "blankline", "comma", "brk", "brk0", "asg2", "dot2", "op2", "opt", "op2t", "lp2", "rp2", "col2", "comma2", "lb2", "rb2", "q2", "bang2")))
+        dk = sorted(set(x.split(":")[0] for x in c["out"] if x.split(":")[0] in ("sp", "cmt", "eolc1", "eolc2", "eolc3", "eolc4", "eolc5", "blankline", "comma", "brk", "brk0", "asg2", "dot2", "op2", "opt", "op2t", "lp2", "rp2", "col2", "comma2", "lb2", "rb2", "q2", "bang2")))
         for k in dk: devkinds[k] = devkinds.get(k, 0) + 1
         tag = "+".join(dk) or ("globals:%s/%s" % (c["unit"], c["eol"]))
         def rep(kind, what):
             common.report(ctx, "%s:%s" % (kind, tag), what, dict(program_tag=p.get("tag"), text=r.get("text"), layout=tag, result={k: r.get(k) for k in ("obs", "code", "cursor", "detail")}))
         if r["obs"] in ("timeout", "panic", "exit", "harness-error"):
             rep(r["obs"], "parser %s on a rendering of program '%s'" % (r["obs"], p.get("tag"))); continue
+        if r.get("mutated") is not None:
+            rep("source-changed", "parsing CHANGED the program text it was given: now %r" % r["mutated"][:120]); continue
         if r["obs"] != "tree":
             rep("rejected", "program '%s' rendered with layout [%s] is rejected: %s code %s at %s" % (p.get("tag"), tag, r["obs"], r.get("code"), r.get("cursor"))); continue
         if not tree_eq(spec, r["tree"]):
@@ -171,7 +173,7 @@ def run(ctx):
                rule="%d programs covering every statement kind, expression form and program section (imports, inputs, types with properties/getters/methods/constructors, methods with "
                     "handlers, statements, handlers; drawn from the hand-written grammar family and from the C02/C06/C07/C08/C09 families). For each program TLC computes Tree(prog) "
                     "(checked complete) and Tokens(prog), and the layout machine emits: the canonical rendering, EVERY rendering with exactly one deviation (synonym spelling, ASCII "
-                    "punctuation, comparison / logic operators written without surrounding blanks, extra blank, /* */ comment, end-of-line // and 注： comments, blank line, comma before 且/或/得到, line break after 【 ， 、 { and before 】 }), all 6 "
+                    "punctuation, comparison / logic operators written without surrounding blanks, extra blank, /* */ comment, end-of-line // and 注： comments, block comments spanning lines with the closing mark at the start of a line, blank line, comma before 且/或/得到, line break after 【 ， 、 { and before 】 }), all 6 "
                     "combinations of indentation unit x line terminator, the rendering with braces only where the documented precedence table requires them (MinBrace), and %d simulated renderings with up to 5 deviations; every rendering is parsed by the real parser and the "
                     "dumped tree must equal Tree(prog) (hence all renderings agree) and be complete. Plus every rendering of a sample of the programs with one token deleted / duplicated / swapped or one "
                     "whole line dropped (TLC, Mutate): whatever the parser accepts must be a complete tree (a definition has a body, an 输入 line is followed by statements, ...)" % (len(progs), 400 if quick else 6000),
